@@ -150,10 +150,12 @@ def run(ctx):
     ctx.must_run_go(b, "TestScenarios", env={"VERIF_CASES": cp, "VERIF_OUT": out}, timeout=3000)
     nj, verdicts = stages.judge(ctx, out, module="C01Judge")
     idx = stages.index_obs(out)
+    harness_errs = []
     for v in verdicts:
         c = idx[v["case"]]
         if v["rule"] == "harness":
-            raise vlib.Inconclusive("harness error in %s: %s" % (v["case"], c["err"]))
+            harness_errs.append((v["case"], c["err"]))
+            continue
         if not (v["rule"].startswith("C01.")):
             ctx.drift.append({"case": v["case"], "rule": v["rule"], "note": "two-party formula of another property failed in a C01 run (reported by that property's own check if claimed there)"})
             continue
@@ -175,6 +177,9 @@ def run(ctx):
             done += 1
             ctx.distinct.add((s["pull"], s["srcStore"], s["dstStore"], len(s["limits"]), s["reqFin"], s["pauseSide"], s["bounceSide"], s.get("restartSide", ""), s["dupEvery"] > 0))
     ctx.extra["scenarios"] = nj
+    ctx.extra["scenario_harness_errors"] = harness_errs[:5]
+    if len(harness_errs) > max(2, nj // 4):
+        raise vlib.Inconclusive("too many scenarios failed in the harness itself: %s" % harness_errs[:3])
     ctx.extra["completed_on_initiator"] = done
     ctx.extra["not_quiesced"] = sum(1 for c in idx.values() if not c["quiesced"])
     ctx.states += sum(len(c["i"]) + len(c["r"]) for c in idx.values())
